@@ -186,6 +186,7 @@ where
     pub fn set_orientation(&mut self, orientation: options::Orientation) -> Result<(), DI::Error> {
         self.madctl = self.madctl.with_orientation(orientation); // set orientation
         self.di.write_command(self.madctl)?;
+        self.options.orientation = orientation;
 
         Ok(())
     }
